@@ -148,6 +148,8 @@ def table_of(case):
 @register
 class CHECK(Check):
     pid = "C08"
+    module = "FairModel.Properties.C08X"  # base file + composition theorems (same namespace)
+    cross = (("eg", {"X1.eg-certificate-vs-metric"}),)
     technique = ("Lean 4 theorems over (i) the Saddle model (Lagrangian, L_low, L_high, gap, project_lambda, best-iterate selection), "
                  "(ii) the ExponentiatedGradient MAIN LOOP as a state machine (Model/EGLoop.lean: multipliers, running mean, best_h "
                  "cache, eval_gap's [1,2,5,10] loop with its break, LP cache, EG-vs-LP choice, break rule, regret check / eta shrink, "
